@@ -478,6 +478,28 @@ fn compilebc_w<C: CellType>(backend: &str, text: &str) -> String {
     }
 }
 
+fn mcinstr_w<C: CellType>(text: &str, idx: usize) -> String {
+    let mut t = Toks::new(text);
+    let p = parse_bc::<C>(&mut t);
+    let ex = BaseJitCompiler::<C>::verif_from_bytecode(p);
+    let (code, locs, _term) = ex.verif_compile(false, true);
+    if idx >= locs.len() {
+        return "ERR index".into();
+    }
+    let a = locs[idx];
+    let b = if idx + 1 < locs.len() { locs[idx + 1] } else { code.len() };
+    format!("ok {}", code[a..b].iter().map(|x| format!("{x:02x}")).collect::<String>())
+}
+
+/// mcinstr|w|idx|bc-text : machine code (hex) the baseline JIT emits for instruction idx of a
+/// hand-made bytecode program (unlimited, checked mode)
+pub fn mcinstr(f: &[&str]) -> String {
+    let w: u32 = f[0].parse().unwrap();
+    let idx: usize = f[1].parse().unwrap();
+    let text = f[2].to_string();
+    in_child(10000, move || by_width!(w, mcinstr_w, &text, idx))
+}
+
 /// compilebc|backend|w|bc-text : build (and for the interpreter run) a hand-made bytecode program
 pub fn compilebc(f: &[&str]) -> String {
     let backend = f[0].to_string();
